@@ -102,7 +102,7 @@ def run_case(case, ctx):
         cxyz = writers.face_centres_xyz(mesh)
 
     # ---- edge_node_distances
-    end = np.asarray(g.edge_node_distances.values, float)
+    end = np.array(g.edge_node_distances.values, dtype=float, copy=True)  # a copy: later compared with a re-read
     ref_nd = np.array([S.angle(tuple(xyz[a]), tuple(xyz[b])) for a, b in en])
     ctx.ev("edge_node_distance")
     supplied_dv = winfo is not None and "dvEdge" not in case["withhold"]
@@ -117,7 +117,7 @@ def run_case(case, ctx):
             bad("edge_node_distance", "wrong", f"edge {i} nodes {en[i].tolist()}: {end[i]!r} expected {ref_nd[i]!r} rad")
 
     # ---- edge_face_distances
-    efd = np.asarray(g.edge_face_distances.values, float)
+    efd = np.array(g.edge_face_distances.values, dtype=float, copy=True)
     interior = (ef[:, 0] != FILL) & (ef[:, 1] != FILL)
     ref_fd = np.zeros(n_edge)
     for e in range(n_edge):
@@ -194,6 +194,13 @@ def run_case(case, ctx):
             e = int(i[-1])
             bad("difference_faces", "wrong", f"edge {e} faces {ef[e].tolist()}: got {got[tuple(i)]!r} expected {exp_diff[tuple(i)]!r}")
     grad = da.gradient()
+    # computing a gradient is a read: the grid's distances must still be what they were
+    ctx.ev("distances_unchanged_by_gradient")
+    efd2 = np.asarray(g.edge_face_distances.values, float)
+    end2 = np.asarray(g.edge_node_distances.values, float)
+    if not np.array_equal(efd2, efd) or not np.array_equal(end2, end):
+        i = int(np.argmax(np.abs(efd2 - efd))) if not np.array_equal(efd2, efd) else int(np.argmax(np.abs(end2 - end)))
+        bad("distances_unchanged_by_gradient", "changed", f"after gradient(): edge {i} (faces {ef[i].tolist()}) edge_face_distances {efd[i]!r} -> {efd2[i]!r}, edge_node_distances {end[i]!r} -> {end2[i]!r}", site + ":after-gradient")
     if dims_grid(grad, "gradient"):
         ctx.ev("gradient_value")
         got = np.asarray(grad.values, float)
